@@ -720,6 +720,23 @@ class Item:
         self._log('R20', 'char_indices().peekable() loop -> counted loop with running byte offset (%d peeks rewritten)' % k)
         return self
 
+    def r21(self, fn_name, ordinal):
+        """`for (OFF, C) in E.char_indices() { B }` -> counted loop over the characters (a Vec<char> from the str_chars_vec stub) with a
+        running byte offset: OFF is the sum of len_utf8 of the characters before C.  The counters are advanced at the top of the body,
+        so a `continue` in B behaves as before."""
+        self._no_splice_yet()
+        b, o, e = self._loop_span(fn_name, ordinal)
+        hdr = self.text[b:o]
+        m = re.match(r'(\s*)for \((\w+), (\w+)\) in (\w+)\.char_indices\(\)\s*$', hdr, re.S)
+        if not m:
+            raise ExtractError('%s: R21 loop #%d is not `for (off, c) in s.char_indices()`: %s' % (self.name, ordinal, hdr.strip()))
+        ind, off, c, expr = m.groups()
+        new_hdr = ('%slet __cs = str_chars_vec(%s);\n%slet mut __i: usize = 0;\n%slet mut __off: usize = 0;\n%swhile __i < __cs.len() ' % (ind, expr, ind, ind, ind))
+        body_ins = ('\n%s    let %s = __cs[__i];\n%s    let %s = __off;\n%s    __off += %s.len_utf8();\n%s    __i += 1;' % (ind, c, ind, off, ind, c, ind))
+        self.text = self.text[:b] + new_hdr + '{' + body_ins + self.text[o + 1:]
+        self._log('R21', 'char_indices() for loop #%d in %s -> counted loop with running byte offset' % (ordinal, fn_name))
+        return self
+
     def r16_rev_pairs(self, fn_name, ordinal, suffix=None):
         """`for (a, b) in V.iter_mut().rev() { B }` -> counted `while` from V.len() down to 1 with `a` / `b` written as the places
         V[k].0 / V[k].1 (`&mut V[k].1` where b is passed as an argument).  Sound for the same reason as R16."""
@@ -1036,17 +1053,23 @@ class Item:
         """Insert text on its own line(s) after the line matched by anchor_re."""
         self._begin_splices()
         ms = self._code_matches(anchor_re, fn_name)
-        if len(ms) <= nth:
-            if optional:
-                return self
-            raise ExtractError('%s: anchor lost /%s/' % (self.name, anchor_re))
-        m = ms[nth]
-        ls = self.text.rfind('\n', 0, m.start()) + 1
-        le = self.text.find('\n', m.end() - 1)
-        ind = re.match(r'[ \t]*', self.text[ls:]).group(0)
-        block = '\n'.join(ind + l for l in text.strip().split('\n'))
-        self.text = self.text[:le] + '\n' + sp(block) + self.text[le:]
-        self._log('R7', 'proof text after /%s/' % anchor_re[:50])
+        if nth is None:      # after every match (a hint that must accompany each occurrence of a statement form)
+            if not ms and not optional:
+                raise ExtractError('%s: anchor lost /%s/' % (self.name, anchor_re))
+            targets = list(reversed(ms))
+        else:
+            if len(ms) <= nth:
+                if optional:
+                    return self
+                raise ExtractError('%s: anchor lost /%s/' % (self.name, anchor_re))
+            targets = [ms[nth]]
+        for m in targets:
+            ls = self.text.rfind('\n', 0, m.start()) + 1
+            le = self.text.find('\n', m.end() - 1)
+            ind = re.match(r'[ \t]*', self.text[ls:]).group(0)
+            block = '\n'.join(ind + l for l in text.strip().split('\n'))
+            self.text = self.text[:le] + '\n' + sp(block) + self.text[le:]
+        self._log('R7', 'proof text after /%s/%s' % (anchor_re[:50], ' (every occurrence)' if nth is None else ''))
         return self
 
     def before_loop(self, fn_name, ordinal, text):
